@@ -328,6 +328,17 @@ pub fn front_end(truth: &mut Truth, text: &str, type_check: bool) -> Result<ast:
     Ok(block)
 }
 
+/// evaluate_const_vars + const_simplify, as the real compile pipelines do before desugaring
+pub fn const_simplify(truth: &mut Truth, block: &mut ast::Block) -> Result<(), String> {
+    let ctx = truth.ctx();
+    let r = (|| -> Result<(), truth::ErrorReported> {
+        truth::passes::evaluate_const_vars::run(ctx)?;
+        truth::passes::const_simplify::run(block, ctx)?;
+        Ok(())
+    })();
+    match r { Ok(()) => Ok(()), Err(e) => { e.ignore(); Err(truth.get_captured_diagnostics().unwrap_or_default()) } }
+}
+
 pub fn desugar(truth: &mut Truth, block: &ast::Block) -> Result<ast::Block, String> {
     let mut b = block.clone();
     let ctx = truth.ctx();
